@@ -7,6 +7,12 @@ EVENT_SRCS = ["events/events_network_selectstats.c", "datastruct/timerqueue.c", 
               "datastruct/elasticarray.c", "util/warnp.c"]
 # events.c, events_immediate.c, events_network.c, events_timer.c are #included by the harness (white box);
 # util/monoclock.c is replaced by the harness's scripted clock, poll() by -Wl,--wrap=poll.
+# Black-box fallback (h_events.c -DHC_BLACKBOX, taken when the white-box build fails): the four files are compiled on
+# their own and only events.h is used; the trace (L1) is the same, the state part is not printed.  No bb_fresh: what survives
+# a case after the harness cancelled every registration (minq, fdscanpos, the allocated-but-empty socket list / timer queue /
+# pools -- the latter survive in the white-box build too) cannot reach the next trace, a pending interrupt request is consumed
+# by the harness (see h_events.c); one process per case was tried and agrees, but takes 9 minutes per forced check.
+BB_SRCS = ["events/events.c", "events/events_immediate.c", "events/events_network.c", "events/events_timer.c"]
 
 BITS = [("r", 20), ("w", 20), ("rw", 14), ("e", 8), ("h", 8), ("re", 4), ("wh", 4), ("rwe", 4), ("eh", 3), ("rweh", 3), ("-", 6)]
 # let time pass before a poll fails with EINTR (on by default; VERIF_EVENTS_EINTR_TIME=0 leaves the time out): on the tree
@@ -483,7 +489,8 @@ def component(monitor):
              "timers --, clock advance, level-triggered repeats) and "
              "events_run calls; profiles mixed/net/imm/tm/status/far; non-trivial = >= 2 runs and >= 2 register/cancel/reset calls; "
              "L1 = the %s monitor over the implementation's trace, L2 = equality with the model's trace and white-box state" % monitor.upper(),
-        classify=classify, monitor_args=["eventsmon", monitor], ldflags=["-Wl,--wrap=poll"])
+        classify=classify, monitor_args=["eventsmon", monitor], ldflags=["-Wl,--wrap=poll"],
+        bb_ok=True, bb_srcs=BB_SRCS)
 
 
 ASSUMPTIONS = [
